@@ -25,6 +25,8 @@ ASSUMPTIONS = [
     "stopping on an event that fails, or that is never triggered, is outside the statement and not driven",
 ]
 OPS = ["ret", ("T", 0), ("T", 1), ("T", 2), ("W", 0, True), ("S", 0), ("J", True), "I", "Sp"]
+# delays that are not binary fractions: now + (t - now) != t in floating point for many (now, t)
+OPS_F = ["ret", ("T", 0), ("T", 0.2), ("T", 0.7), ("W", 0, True), ("S", 0), "I"]
 NSCEN = 9
 
 
@@ -33,6 +35,7 @@ def plan(tier, seed):
     cfgs = [dict(kind="k", depth=4, S=2)]
     if not quick:
         cfgs = [dict(kind="k", depth=5, S=2), dict(kind="k", depth=4, S=3)]
+    cfgs.append(dict(kind="k", depth=3 if quick else 4, S=2 if quick else 3, ops="F", off=0.1))
     for sc in range(NSCEN):
         cfgs.append(dict(kind="net", scenario=sc, S=2 if quick else 3))
     return {"cfgs": cfgs, "budget": None,
@@ -56,7 +59,9 @@ def execute(ch, cfg):
     if cfg["kind"] == "net":
         return exec_net(ch, cfg)
     res = Result()
-    base = KC.K(ch, OPS, cfg["depth"], reaction=False).run()
+    ops = OPS_F if cfg.get("ops") == "F" else OPS
+    off = cfg.get("off", 0.25)
+    base = KC.K(ch, ops, cfg["depth"], reaction=False).run()
     prog = list(ch.choices)
     blog = [x[2:] for x in base.log]
     bstep = [x[1] for x in base.log]
@@ -64,7 +69,7 @@ def execute(ch, cfg):
         res.digest = ("crash", tuple(prog))
         return res
     dues = sorted(set(t[1] for t in base.trig if t[1] > 0))
-    menu = [("step",)] + [("t", t) for t in dues] + [("t", t + 0.25) for t in dues] + [("t", 0)]
+    menu = [("step",)] + [("t", t) for t in dues] + [("t", t + off) for t in dues] + [("t", 0)]
     targets = []
     if ("ev", 0) in base.processed and base.outcome.get(("ev", 0), (None,))[0]:
         targets.append(("ev", 0))
@@ -83,7 +88,7 @@ def execute(ch, cfg):
     res.digest = (tuple(prog), tuple(stops))
     if not stops:
         return res
-    k = KC.K(Replayer(prog), OPS, cfg["depth"], reaction=False)
+    k = KC.K(Replayer(prog), ops, cfg["depth"], reaction=False)
     env = k.env
     try:
         for st in stops:
@@ -283,6 +288,7 @@ def scenario(sc, env):
 
 
 def exec_net(ch, cfg):
+    off = 0.25
     res = Result()
     env = Environment()
     trace = scenario(cfg["scenario"], env)
@@ -292,7 +298,7 @@ def exec_net(ch, cfg):
     alld = sorted(set(x[0] for x in base[:nbase]))
     # early instants, the last instants of the traffic, and one instant long after the network has gone idle
     dues = sorted(set(alld[:5] + alld[-2:] + [30]))
-    menu = [("step",)] + [("t", t) for t in dues if t > 0] + [("t", t + 0.25) for t in dues] + [("t", 0)]
+    menu = [("step",)] + [("t", t) for t in dues if t > 0] + [("t", t + off) for t in dues] + [("t", 0)]
     stops = []
     for i in range(cfg["S"]):
         c = ch.choose(len(menu) + 1, lambda c: "stop %s" % ("none" if c == 0 else (menu[c - 1],)), free=True)
